@@ -60,7 +60,26 @@ type dpCall struct {
 	step int
 }
 
+// dpHangs counts registry calls that did not return: after a few of them the verdict is in, the remaining behaviours are skipped
+var dpHangs atomic.Int32
+
 func runDispatch(b *dpBeh) (problems []string) {
+	if dpHangs.Load() >= 3 {
+		return nil
+	}
+	// a subscribe / unsubscribe call that does not come back (e.g. a registry lock that dispatch never releases) ends the behaviour
+	guarded := func(what string, f func()) bool {
+		done := make(chan struct{})
+		go func() { f(); close(done) }()
+		select {
+		case <-done:
+			return true
+		case <-time.After(5 * time.Second):
+			dpHangs.Add(1)
+			problems = append(problems, what+": the call did not return within 5 s; no further event can reach the callbacks still subscribed")
+			return false
+		}
+	}
 	ctx, cancel := context.WithCancel(context.Background())
 	defer cancel()
 	rd := &stepReader{ctx: ctx, req: make(chan struct{}), data: make(chan []byte)}
@@ -109,16 +128,24 @@ func runDispatch(b *dpBeh) (problems []string) {
 				inCallback = false
 				mu.Unlock()
 			}
-			switch {
-			case op.Kind == "all":
-				removers[idx] = cn.SubscribeToAll(cb)
-			case op.Typ == "":
-				removers[idx] = cn.SubscribeMessages(cb)
-			default:
-				removers[idx] = cn.SubscribeEvent(op.Typ, cb)
+			typ := op.Typ
+			if !guarded("hang in subscribe", func() {
+				switch {
+				case op.Kind == "all":
+					removers[idx] = cn.SubscribeToAll(cb)
+				case typ == "":
+					removers[idx] = cn.SubscribeMessages(cb)
+				default:
+					removers[idx] = cn.SubscribeEvent(typ, cb)
+				}
+			}) {
+				return
 			}
 		case "unsub":
-			removers[op.Cb]()
+			rm := removers[op.Cb]
+			if !guarded("hang in unsubscribe", func() { rm() }) {
+				return
+			}
 		case "connect":
 			go func() { connDone <- cn.Connect() }()
 			if !wait("connect") {
